@@ -473,8 +473,11 @@ static int ec_edit(char *loc, char *cmd, char *arg, char *txt)
 			return ex_command(pls + 1);
 		return 0;
 	}
-	if (path[0] || !bufs[0].path)
+	if (path[0] || !bufs[0].path) {
+		if (bufs_modified(bufs_findroom(), "no room: the least recently used buffer is modified"))
+			return 1;
 		bufs_switch(bufs_open(path));
+	}
 	fd = open(ex_path(), O_RDONLY);
 	if (fd >= 0) {
 		int rd = lbuf_rd(xb, fd, 0, lbuf_len(xb));
